@@ -36,6 +36,8 @@ def cases_for(prop, tier):
                     continue
                 yield {'stack': 'find', 'k': k, 'style': style, 'maxlen': 16384, 'err': False, 'sop': FIND}
         yield {'stack': 'find', 'k': 3, 'style': 'fresh', 'maxlen': 128, 'err': False, 'sop': FIND}
+        # every match takes several P-DATA-TF PDUs
+        yield {'stack': 'find', 'k': 3, 'style': 'fresh', 'maxlen': 128, 'err': False, 'sop': FIND, 'allbig': True}
         yield {'stack': 'find', 'k': 2, 'style': 'fresh', 'maxlen': 16384, 'err': True, 'sop': FIND}
         yield {'stack': 'find', 'k': 2, 'style': 'fresh', 'maxlen': 16384, 'err': False, 'sop': MWL}
         yield {'stack': 'find', 'k': 2, 'style': 'fresh', 'maxlen': 16384, 'err': False, 'sop': FIND, 'wrapper': True}
@@ -104,7 +106,7 @@ def make(case):
 
         if kind == 'find':
             k = case['k']
-            matches = [(dsgen.make(KINDS[i % 3], i), PEND[i % 2]) for i in range(k)]
+            matches = [(dsgen.make('big' if case.get('allbig') else KINDS[i % 3], i), PEND[i % 2]) for i in range(k)]
             results['expected'] = [(dsgen.enc(d, IMPL), s) for d, s in matches]
 
             class FindAE(applicationentity.AE):
@@ -208,6 +210,8 @@ def make(case):
             for j, L in enumerate(letters):
                 def client(L=L, j=j):
                     cae = applicationentity.ClientAE('SCU' + L, [IMPL], 16384).add_scu(sopclass.qr_move_scu)
+                    if case.get('dest_fault'):
+                        cae.timeout = 25        # longer than the provider waits for its sub-association
                     got = []
                     results['move'][L] = got
                     q = dsgen.make('query')
@@ -217,6 +221,15 @@ def make(case):
                             for status, rsp in asce.get_scu(MOVE)(q, 'DEST', 31 + j):
                                 got.append((int(status), rsp.num_of_remaining_sub_ops, rsp.num_of_completed_sub_ops, rsp.num_of_failed_sub_ops,
                                             rsp.num_of_warning_sub_ops, rsp.message_id_being_responded_to))
+                            if case.get('dest_fault'):
+                                # the request has been answered; the application keeps listening while the provider finds out
+                                # that its sub-association cannot be released: whatever else happens, no further response
+                                try:
+                                    m, pcid = asce.receive()
+                                    results.setdefault('after_final', []).append((type(m).__name__, pcid, getattr(m, 'message_id_being_responded_to', None),
+                                                                                  int(getattr(m, 'status', -1) or 0)))
+                                except exceptions.NetDICOMError:
+                                    pass
                         results['clients'][L] = 'ok'
                     except exceptions.NetDICOMError as exc:
                         results['clients'][L] = '%s: %s' % (type(exc).__name__, exc)
@@ -618,6 +631,9 @@ def judge(case, out):
             # "k counted as performed": completed == k, or completed + failed + warning == k (both conventions exist)
             okp = len(pend) == n and all(p[0] == 0xFF00 and p[1] == e[1] and p[5] == mid and p[3] == e[3] and p[4] == e[4] and
                                          (p[2] == e[2] or p[2] + p[3] + p[4] == e[2]) for p, e in zip(pend, exp))
+            if r.get('after_final'):
+                viol.append((sig + ':answered-again', 'after the final response %r the requesting application received %r on the same association%s (%s)' % (
+                    tail, r['after_final'], tag, where)))
             if len(tail) != 1 or tail[0][0] in PEND or tail[0][1] not in (0, None) or tail[0][5] != mid:
                 viol.append((sig + ':final', 'responses %r: no single final response%s (%s)' % (got, tag, where)))
             elif not okp:
